@@ -58,7 +58,7 @@ pub fn drive(base: &Xstate, src: &str, mode: usize, recording: bool, with_input:
 fn compare(src: &str, with_input: bool, outs: &[(String, Outcome)], rep: &Reporter, local: &mut BTreeMap<String, u64>) {
     let (n0, o0) = &outs[0];
     bump(local, &format!("result:{}", o0.kind.split('(').next().unwrap_or("")));
-    let limit_hit = o0.kind.contains("insn limit");
+    let limit_hit = o0.kind == limit_kinds().0;
     for (n, o) in &outs[1..] {
         let mut diff = None;
         if o.kind != o0.kind {
